@@ -16,7 +16,8 @@ def sh(cmd, cwd=None, timeout=3600):
 def counts(out):
     ok=sum(int(m) for m in re.findall(r'test result: \w+\. (\d+) passed', out)); bad=sum(int(m) for m in re.findall(r'(\d+) failed;', out)); return ok,bad
 CHECKS_ONLY='--checks-only' in sys.argv
-sys.argv=[a for a in sys.argv if a!='--checks-only']
+NO_CHECKS='--no-checks' in sys.argv
+sys.argv=[a for a in sys.argv if a not in ('--checks-only','--no-checks')]
 ids=sys.argv[1:] or sorted(os.path.basename(d) for d in glob.glob('/verif/seeded/C*'))
 sh(f'git -C /repo worktree remove --force {WT}'); sh('git -C /repo worktree prune')
 rc,out=sh(f'git -C /repo worktree add --detach {WT} HEAD'); assert rc==0, out
@@ -70,6 +71,11 @@ for sid in ids:
         res['cmd']=cmd; res['file']=os.path.basename(demo)
         sh('git checkout -- . && git clean -fdq', cwd=WT)
     meta['demonstration']=res
+    if NO_CHECKS:
+        meta['kept']=bool(meta['patch_applies'] and meta['suite_with_patch']['passed']==34 and meta['suite_with_patch']['failed']==0 and res.get('with_patch',{}).get('exit',0)!=0 and res.get('without_patch',{}).get('exit',1)==0)
+        json.dump(meta,open(f'{d}/meta.json','w'),indent=1)
+        print(sid,'kept' if meta['kept'] else 'NOT CONFIRMED','(checks not run)', meta['suite_with_patch'], res.get('with_patch'), res.get('without_patch'), flush=True)
+        continue
     # the registered check against the patch, in /repo itself, undone straight afterwards
     rc,out=sh(f'git -C /repo apply {patch}'); assert rc==0, out
     try:
